@@ -29,8 +29,12 @@ rule is opened), rule present?, kind of ``scenario_container`` with
 ``statement`` and whether it has steps, ``last_step_type`` set?, pending tags?,
 open table width, examples pending?, open doc-string (terminator, column).
 Names, descriptions, cell texts and line numbers already stored in the model
-are never read again by the parser and are not part of the abstraction.  The
-abstraction is validated on every run (``check_transition_function``): over
+are never read again by the parser and are not part of the abstraction.  For the
+same reason the "hostile text" line kinds (names, cells, tag words, free text
+made of str.format / %-interpolation metacharacters) add no abstract state:
+they differ from their plain twin only in text content; the driver checks on
+every run that a hostile kind leads to the same abstract state as its twin.
+The abstraction is validated on every run (``check_transition_function``): over
 *all* line sequences up to the no-dedup bound, (abstract state, line kind) must
 determine (next abstract state, outcome class).
 """
@@ -61,6 +65,29 @@ KIND_NAMES = (
     "blank", "ws",
 )
 assert len(KINDS) == len(KIND_NAMES)
+
+# ---- hostile text: one representative per formatting mechanism that an error message could push user text
+# through (str.format: named field, positional field, lone braces; % interpolation: %s, %(x)s, lone %)
+HOSTILE_ATOMS = (u"{name}", u"{}", u"{", u"}", u"%s", u"%(x)s", u"%")
+HOSTILE = u"{name} {} } { %s %(x)s %"
+# hostile twins of the plain kinds: same keyword / same number of cells / same indentation, only the TEXT that
+# reaches names, cells, descriptions, tag words (and error messages) differs.  name -> (line, plain twin)
+_HOSTILE_KINDS = (
+    ("feature!", u"Feature: " + HOSTILE, "feature"), ("rule!", u"Rule: " + HOSTILE, "rule"),
+    ("background!", u"Background: " + HOSTILE, "background"), ("scenario!", u"Scenario: " + HOSTILE, "scenario"),
+    ("outline!", u"Scenario Outline: " + HOSTILE, "outline"), ("examples!", u"Examples: " + HOSTILE, "examples"),
+    ("given!", u"  Given " + HOSTILE, "given"), ("when!", u"  When " + HOSTILE, "when"),
+    ("and!", u"  And " + HOSTILE, "and"), ("but!", u"  But " + HOSTILE, "but"), ("star!", u"  * " + HOSTILE, "star"),
+    ("tags!", u"@t{name}%s @{}%(x)s%", "tags"), ("badtag!", u"@t1 " + HOSTILE, "badtag"),
+    ("row1!", u"    | " + HOSTILE + u" |", "row1"), ("row2!", u"    | {name} {} } { | %s %(x)s % |", "row2"),
+    ("row-open!", u"    | {name} {} | %s %", "row-open"),
+    ("text!", u"    " + HOSTILE + u" text", "text"), ("text-less-indent!", u"  " + HOSTILE, "text-less-indent"),
+    ("lang-zz!", u"# language: {name}%s%(x)s{", "lang-zz"),
+)
+PLAIN_NK = len(KINDS)
+KINDS = KINDS + tuple(k[1] for k in _HOSTILE_KINDS)
+KIND_NAMES = KIND_NAMES + tuple(k[0] for k in _HOSTILE_KINDS)
+TWIN = dict((KIND_NAMES.index(k[0]), KIND_NAMES.index(k[2])) for k in _HOSTILE_KINDS)
 NK = len(KINDS)
 ENTRIES = ("feature", "rule", "scenario", "steps", "tags")
 
@@ -199,6 +226,10 @@ def run_text(entry, text, hlen=None):
         out = ("ok", type(res).__name__)
     except P["ParserError"] as e:
         out = ("PE", e.line, exc_site(e))
+        try:
+            u"%s" % (e,)                # the message must be printable whatever text went into it
+        except Exception as e2:
+            out = ("EXC", type(e2).__name__, "ParserError.__str__")
     except Exception as e:      # internal exception: the thing C05 forbids
         out = ("EXC", type(e).__name__, exc_site(e))
     dead = REC.inflight
